@@ -6,7 +6,7 @@
      200-299  DNS
      300-399  ICMPv6
      400-499  LLDP *)
-From Erbium Require Import Lib.Base Model.DhcpCodec Model.EntryC12 Model.EntryC05Lldp Model.EntryC05DhcpOpt.
+From Erbium Require Import Lib.Base Model.DhcpCodec Model.EntryC12 Model.EntryC05Lldp Model.EntryC05DhcpOpt Model.EntryC05Icmp6.
 
 (* kind 5: [5; bytes; stage; followup]
    stage: 0 = a reply frame was produced, 1 = dropped with an error / no reply,
@@ -38,6 +38,15 @@ Definition check_rig (k : N) (ts : list N) : list N :=
   | _, _ => v_bad
   end.
 
+(* sub-entries written stand-alone number their predicates and tags from 1: shift them into their own range *)
+Definition shift_verdict (d : N) (v : list N) : list N :=
+  match v with
+  | [0; tag] => [0; d + tag]
+  | [2; p] => [2; d + p]
+  | [3; c] => [3; d + c]
+  | _ => v
+  end.
+
 Definition check_C05 (ts : list N) : list N :=
   match ts with
   | 4 :: r => check_decode r
@@ -47,6 +56,7 @@ Definition check_C05 (ts : list N) : list N :=
   | 8 :: r => check_rig 8 r
   | k :: _ =>
     if (100 <=? k) && (k <? 200) then check_C05_dhcpopt ts
+    else if (300 <=? k) && (k <? 400) then shift_verdict 300 (check_C05_icmp6 ts)
     else if (400 <=? k) && (k <? 500) then check_C05_lldp ts
     else v_bad
   | [] => v_bad
